@@ -61,8 +61,10 @@ package ipk
 //@     return s
 //@ }
 //
-//@ inline func conffiles(info *nfpm.Info) (result []byte)
+//@ func conffiles(info *nfpm.Info) (result []byte)
 //@   requires [C08] info != nil && files.SpecContentsNonNil(info.Contents)
+//@   ensures [C06 C07] no-events: ghostFlag("failed") == old(ghostFlag("failed")) && ghostFlag("clockRead") == old(ghostFlag("clockRead")) && ghostFlag("envRead") == old(ghostFlag("envRead"))
+//@   modifies [C11 C12]
 //@   ensures [C08] config-files-and-only-those-in-plan-order: string(result) == orNewline(confText(info.Contents, len(info.Contents)))
 //@   loop 0 (iter int, confs []string)
 //@     invariant [C11 C12] accumulator-fresh: confs == nil || fresh(confs)
@@ -182,7 +184,7 @@ package ipk
 //@ }
 //
 //@ inline func populateControlTar(info *nfpm.Info, out *tar.Writer, instSize int64) (err error)
-//@   requires info != nil && out != nil
+//@   requires info != nil && out != nil && files.SpecContentsNonNil(info.Contents)
 //@   requires !ghostFlag("failed")
 //@   requires ghostInt(out, "tarRemaining") == 0 && !ghostBool(out, "tarClosed")
 //@   ensures [C09 C08 C02] control-archive-members: implies(err == nil, ghostStr(out, "tarManifest") == old(ghostStr(out, "tarManifest")) +
